@@ -30,6 +30,21 @@ def check_selection(ctx, line, tr, directed, what):
     d = oracles.trace_dict(tr)
     Ls = [x[2] for x in rep]
     fin = finals(tr)
+    # the report against the sweeps actually performed: one iteration_end hook call per sweep (calls are COUNTED, their arguments not trusted),
+    # the reason passed with the last call, the likelihood passed to realization_end
+    calls = {}
+    last_reason = {}
+    for t in tr:
+        if t[0] == '@iter':
+            i = int(t[1])
+            calls[i] = calls.get(i, 0) + 1
+            last_reason[i] = int(t[4])
+    names = {1: 'MAX_ITER', 2: 'CONVERGED'}
+    for i, x in enumerate(rep):
+        if i in calls and (x[0] != calls[i] or (last_reason.get(i) in names and x[1] != names[last_reason[i]])):
+            ctx.violation('report', 'report entry %d lists %d iterations / %s, but %d sweeps were performed and the loop ended with %s (%s)' % (
+                i, x[0], x[1], calls[i], names.get(last_reason.get(i), last_reason.get(i)), what), {'case': line, 'report': [y[:3] for y in rep]})
+            break
     if any(l != l for l in Ls):
         return ('nan', len(Ls))
     best = oracles.first_argmax(Ls)
@@ -91,6 +106,27 @@ def run(ctx):
             cases.append(line)
             info[cid] = (variant[0], 'special %s' % (sc,))
             cid += 1
+    # report entries of every kind in one run: realizations that converge at the 2nd, 3rd, ... evaluation (sweep 11, 21, ...), that run into the
+    # iteration limit, in every order, with ties among the likelihoods (iterations, reason and likelihood of EVERY realization, in execution order)
+    def one(kind, x):
+        if kind == 0:
+            return [x - 7.0, x, x, x, x]                      # passes at the 3rd evaluation
+        if kind == 1:
+            return [x, x, x, x, x]                            # passes at the 2nd
+        if kind == 2:
+            return [x - 9.0, x - 5.0, x - 2.0, x - 1.0, x]    # never passes: MAX_ITER
+        return [x - 3.0, x - 3.0, x - 1.0, x, x]              # passes, fails, ..., passes again
+    for j in range(ctx.budget(48, 400)):
+        sub = rng.fork('m%d' % j)
+        n = sub.rint(2, 4)
+        kinds = [sub.below(4) for _ in range(n)]
+        vals = [sub.choice([-30.0, -25.0, -25.0, -12.5]) for _ in range(n)]
+        script = [one(k_, x) for k_, x in zip(kinds, vals)]
+        line, meta = gen.gen_e2e(sub, cid, variant=gen.VARIANTS[j % 4], types=('u', 'u'), edges=NETS[cid % 2], K=2, r=n,
+                                 maxit=sub.choice([21, 25, 31, 41, 45]), nconv=sub.choice([1, 1, 2]), seed=3 + cid % 5, script=script, trace=1)
+        cases.append(line)
+        info[cid] = (gen.VARIANTS[j % 4][0], 'mixed terminations %s' % (kinds,))
+        cid += 1
     res = ctx.component('K-SELECT', cases, keys={'status', 'rep'})
     # natural runs, several realizations, and prefix pairs r' < r
     nat = []
